@@ -450,14 +450,14 @@ fn explain(pat: &Nfa, spec: &Nfa, st: &Stages, cfg: &Cfg) -> (Option<Vec<&'stati
 // ---------------------------------------------------------------------------------------------
 
 /// The trie that grex's documented-by-observation insertion rule produces: walking a cluster from
-/// the root, an outgoing edge with the same text is reused if its upper count equals the new
+/// the root, an outgoing edge with the same text (the same list of graphemes) is reused if its upper count equals the new
 /// grapheme's, and is widened to `min(..)..=max(..)` if its upper count is exactly one less;
 /// edges are examined from the most recently added to the oldest (petgraph's adjacency order).
 /// KF-merge is accepted only if the real trie denotes exactly this model's language, so a
 /// different (even larger) over-match at trie insertion is still reported.
 pub fn model_merge_trie(clusters: &[Vec<Label>]) -> Automaton {
     struct E {
-        text: String,
+        text: Vec<String>,
         min: u32,
         max: u32,
         to: usize,
@@ -468,7 +468,7 @@ pub fn model_merge_trie(clusters: &[Vec<Label>]) -> Automaton {
     for c in clusters {
         let mut cur = 0usize;
         for g in c {
-            let text = g.chars.join("");
+            let text = g.chars.clone();
             let mut next = None;
             for e in edges[cur].iter_mut().rev() {
                 if e.text != text {
